@@ -1,6 +1,7 @@
 (* C14 - rexpy results depend only on the multiset of examples and the seed: generator protocol. *)
 From Coq Require Import ZArith List Bool.
-From Tdda Require Import Rexpy.Prng.
+From Coq Require Import Permutation.
+From Tdda Require Import Base.Str Rexpy.Chars Rexpy.Pipeline Rexpy.Prng Rexpy.PermProofs.
 Import ListNotations.
 
 (* for every generator (state type, seeding function, sample transition), seed, numbers of samples
@@ -16,6 +17,28 @@ Theorem C14_seeded_reproducible : forall (G : Type) (seed_state : Z -> G) (advan
   snd (fst (extractor_run G seed_state advance (Some n) k1 k2 g')).
 Proof. exact seeded_reproducible_proof. Qed.
 Print Assumptions C14_seeded_reproducible.
+
+(* one batch extraction (analysis of the working examples into refined patterns and their expressions) gives the
+   same patterns and expressions whatever the order of the working examples, for every character table, option
+   set, extra letters and group-split oracle.  max_strings_in_group >= 1 is needed (cap_zero_order_matters) *)
+Open Scope Z_scope.
+Theorem C14_batch_order_independent : forall ct o e stripped gt ex ex' r,
+  1 <= z_max_strings_in_group o -> Permutation (ex_strings ex) (ex_strings ex') ->
+  batch_extract ct o e stripped gt ex = Ok r -> batch_extract ct o e stripped gt ex' = Ok r.
+Proof. exact batch_extract_perm. Qed.
+Print Assumptions C14_batch_order_independent.
+
+(* the frequencies play no part in the batch *)
+Theorem C14_batch_ignores_frequencies : forall ct o e stripped gt ex fs,
+  batch_extract ct o e stripped gt ex = batch_extract ct o e stripped gt {| ex_strings := ex_strings ex; ex_freqs := fs |}.
+Proof. exact batch_extract_freqs. Qed.
+Print Assumptions C14_batch_ignores_frequencies.
+
+(* the coarse patterns are a function of the set of run-length encodings *)
+Theorem C14_vrles_order_independent : forall L L', Permutation L L' -> to_vrles L = to_vrles L'.
+Proof. exact to_vrles_perm. Qed.
+Print Assumptions C14_vrles_order_independent.
+Close Scope Z_scope.
 
 Example C14_trace_example :
   trace_of unit (fun _ => tt) (fun g => g) (Some 7%Z) 1 2 tt =
